@@ -253,10 +253,11 @@ CHECKS = {
        "rejected insert after reopen emptying the tree). The implementation model BTree.lean (functional B+tree with the code's serialized-size formulas, "
        "splitIndex, per-child grouping, root growth) is PROVED to refine the spec for single-entry inserts (any node size, depth, shape; splits at all levels) and for get; "
        "multi-entry bulks are carried by the tie only (tree depth after every BulkInsert equals tbtree's depth gauge; abs(tree)=map asserted by the driver after every op). Tie: the real tbtree (MaxNodeSize at the minimum, cache off/tiny, flush thresholds 1.., small files, "
-       "cleanup 0..100, compaction, close/reopen, open snapshots re-read after later mutations) is compared call by call with the Lean driver and with an "
+       "cleanup 0..100, compaction, close/reopen, open snapshots re-read after later mutations; plus small-tree copy-on-write cases: root leaf / shallow trees with the default and the minimum node size, "
+       "flush -> snapshot kept open -> IncreaseTs / reopen with the ts file ahead / rejected insert -> updates of existing keys, every open snapshot fully re-read after every mutating op) is compared call by call with the Lean driver and with an "
        "independent Go reference map.",
   note=TB + " Modelled rather than verified: node/file format, cache, nodeRef lazy loading, hLog byte layout (abstracted to per-key block lists); wall-clock snapshot renewal (RenewSnapRootAfter=0), Snapshot.Set, SyncSnapshot, HistoryReader and Reader.Reset on history readers are not exercised; "
-       "that the Go code never mutates a pinned tree is checked by re-reading open snapshots (a search). Three findings, all repaired in the repository ('fixed' lines of known_findings.json; the probes stay).",
+       "that the Go code never mutates a pinned tree is checked by re-reading open snapshots (a search). Three findings repaired in the repository ('fixed' lines of known_findings.json; the probes stay); one known, low-severity finding: Ts() is not preserved by Close/Open after a rollback to the loaded root (stale TIMESTAMP file applied again; Lean witness reopen_after_rollback_restores_stale_ts).",
   technique="Lean 4 proof (induction over sorted lists / operation lists, refinement) + differential correspondence against the real tbtree + reference-map oracle",
   design="7/C10"),
  "C09": dict(
@@ -271,9 +272,15 @@ CHECKS = {
        "real store directories (plain / embedded / 3 vlogs / compressed, tiny chunk files, header v0+v1, kv+tx metadata) are copied and altered at every field of every record "
        "(boundary bits, every length/offset/count := 0/1/max/±1, vlog-id variants, metadata overruns, value bytes) plus seeded random single/multi-bit flips; ReadTx outcome (canonical record | error class | panic), "
        "ReadValue outcome and TxReader steps are compared with the Lean driver; pristine records are compared byte for byte with serializeTx. Model-independent oracle: every call of Open/ReadTx/ReadTxHeader/"
-       "ReadTxEntry/ReadValue/ExportTx/TxReader/DualProof/Get returns an error or exactly the pristine content; panic, hang, >128 MiB allocation or different content = failure.",
+       "ReadTxEntry/ReadValue/ExportTx/TxReader/DualProof/Get returns an error or exactly the pristine content; panic, hang, >128 MiB allocation or different content = failure. "
+       "Every altered (and unaltered) copy is opened with a value-log cache size in {0,1,4,64} x tx-log cache size {default,1} and read through one of 11 read SEQUENCES that interpose lenient accesses "
+       "(ExportTx/ReadTx/ReadTxHeader/ReadTxEntry with skipIntegrityCheck=true: all at once, per tx, or sandwiched between two checked passes) and permute the checked phases (export first, Get first), "
+       "so that a cache filled by a lenient or by another checked path is then consumed by a checked one; lenient answers are not judged, ReadValue of an entry handed out by a lenient read must be self-authentic "
+       "(digest and length of that entry). Lean: readValueAt with the value cache as explicit state and the skip flag (Tx/ValueCache.lean): a checked read is authentic for EVERY cache content and in every read sequence "
+       "(cached_value_authentic_partial, cached_reads_authentic), the cache is transparent on unchanged logs unless an offset is cached with another length (cached_read_transparent); the repeated reads of the sandwich "
+       "sequences are compared with the model run through the cached bytes (c09 rvc).",
   note=TB + " Modelled rather than verified: the appendable layer (chunk files, compression, caches) is abstracted to logical byte logs (compressed value logs are exercised by the oracle only, not by the model); "
-       "the tx-log cache, the indexer and DualProof are exercised by the oracle only; 'partial' = the full property is false for the current code: the known finding signatures of known_findings.json (vLen=0, ExportTx hang / truncated export, compressed-log allocation) incl. the documented limit K2.",
+       "the tx-log cache (filled on commit only, so empty in every probe), the indexer and DualProof are exercised by the oracle only; the value cache is modelled without capacity/eviction (theorems hold for every content); 'partial' = the full property is false for the current code: the known finding signatures of known_findings.json (vLen=0, ExportTx hang / truncated export, compressed-log allocation) incl. the documented limit K2.",
   technique="Lean 4 proof (parser inversion + collision-explicit hash-chain injectivity) + differential correspondence on systematically corrupted real store directories",
   design="7/C09"),
  "C16": dict(
@@ -304,8 +311,10 @@ CHECKS = {
        "number of chunk rotations; SetOffset truncates; Flush/Sync (also a failing fsync with retryable sync)/SwitchToReadOnly/Copy keep the content; "
        "DiscardUpto keeps every byte at or after the offset; ReadAt and close+reopen refine under the exact side conditions ReadSafe/CurSafe and "
        "NoStaleTail/NoStale (theorems *_partial). The negation of the unconditional ReadAt/reopen statements is PROVED by witnesses on the mirror "
-       "(readAt_stale_witness, reopen_stale_tail_witness, multi_*_witness) and reproduced on the real code (known findings). Tie: random op "
-       "sequences on real singleapp/multiapp instances x options vs the Lean driver (offset, n, bytes, error class, size; exact incl. stale "
+       "(readAt_stale_witness, reopen_stale_tail_witness, multi_*_witness) and reproduced on the real code (known findings). The in-memory rewind is "
+       "characterised exactly (setOffset_inMemory_exact: the flushed-but-unsynced prefix held by retryable sync stays in the buffer; reachable by "
+       "setOffset_flushedPrefix_witness). Tie: every 4-letter word over {append 1/3, flush, sync, setOffset(size-1/-3)} on a small write buffer plus random op "
+       "sequences (35 % in a 'buffer tail' profile: Flush without Sync, appends that stay buffered, rewinds into the buffered tail) on real singleapp/multiapp instances x options vs the Lean driver (offset, n, bytes, error class, size; exact incl. stale "
        "behaviour and cache eviction order) and a model-independent []byte oracle; compressed formats by the oracle only.",
   note=TB + " Modelled rather than verified: write/seek/close I/O errors (only fsync failure is injected, in the model only), kernel page cache / "
        "fsync durability, compressed formats (oracle stream only: entries addressed by returned offsets), negative offsets on multiapp, the "
